@@ -32,6 +32,7 @@ REGION = [
     "secsgem.common.protocol:Protocol.send_message",
     "secsgem.common.byte_queue:ByteQueue.*",
     "secsgem.common.protocol_dispatcher:ProtocolDispatcher.*",
+    "secsgem.common.block_send_info:BlockSendInfo.*",
 ]
 
 
@@ -48,7 +49,8 @@ def body_of(n, salt):
     return bytes(((i * 11 + salt) & 0xFF) for i in range(n))
 
 
-def run_one(devs, budgets, blocks=1, direction="h2e", corrupt=None, all_bytes=False, chunk_menu=True, second=True, traced=True, paced=False):
+def run_one(devs, budgets, blocks=1, direction="h2e", corrupt=None, all_bytes=False, chunk_menu=True, second=True, traced=True, paced=False,
+            tail=19, twin=False, retry=False):
     box = {}
 
     def driver(s):
@@ -74,7 +76,7 @@ def run_one(devs, budgets, blocks=1, direction="h2e", corrupt=None, all_bytes=Fa
             # writes in the sending direction alternate ENQ, block, ENQ, block ...
             link.corrupt = (first_dir, 2 * corrupt[0] + 1, corrupt[1], corrupt[2])
         sender, receiver, rname = (host, eq, "eq") if direction == "h2e" else (eq, host, "host")
-        n = 244 * (blocks - 1) + 19
+        n = 244 * (blocks - 1) + tail  # tail = 244: the body is an exact multiple of the block size
         body1 = body_of(n, 1)
         hdr1 = secsgem.secsi.SecsIHeader(0x1001, 7, 3, 17, 0, direction == "e2h", True, True)
         results = {}
@@ -84,9 +86,32 @@ def run_one(devs, budgets, blocks=1, direction="h2e", corrupt=None, all_bytes=Fa
 
         t = vrt.Thread(target=send1, name="sender-1")
         t.start()
+        if twin:
+            # a second application thread of the same side sends a one-block message at the same time (still only one side transmits):
+            # the blocks of the two messages alternate on the line
+            bodyt = body_of(11, 4)
+            hdrt = secsgem.secsi.SecsIHeader(0x4004, 7, 9, 1, 0, direction == "e2h", False, True)
+
+            def sendt():
+                results["twin"] = sender.send_message(_sm.SecsIMessage(hdrt, bodyt))
+
+            tt = vrt.Thread(target=sendt, name="sender-twin")
+            tt.start()
+            tt.join(120.0)
+            box["expected_twin"] = (0x4004, bodyt)
         t.join(120.0)
         s.settle()
         box["first_returned"] = "first" in results
+        if retry and results.get("first") is False:
+            # the application sends the same message again (same system bytes), this time nothing is corrupted on the line
+            def send_again():
+                results["retry"] = sender.send_message(_sm.SecsIMessage(hdr1, body1))
+
+            tr = vrt.Thread(target=send_again, name="sender-retry")
+            tr.start()
+            tr.join(120.0)
+            s.settle()
+            box["retried"] = True
         if second and "first" in results:
             # the other side answers, then the first side sends again (never both at once)
             body2 = body_of(7, 2)
@@ -120,7 +145,7 @@ def run_one(devs, budgets, blocks=1, direction="h2e", corrupt=None, all_bytes=Fa
 
     sched = vrt.run(driver, devs, budgets, max_steps=400000, max_time=3600.0, line_points=traced)
     res = {"trace": sched.trace, "v": []}
-    case = {"blocks": blocks, "direction": direction, "corrupt": corrupt, "all_bytes": all_bytes, "chunk_menu": chunk_menu, "second": second, "paced": paced}
+    case = {"blocks": blocks, "direction": direction, "corrupt": corrupt, "all_bytes": all_bytes, "chunk_menu": chunk_menu, "second": second, "paced": paced, "tail": tail, "twin": twin, "retry": retry}
     if sched.harness_failure or sched.driver_exception:
         res["harness"] = (sched.harness_failure or sched.driver_exception)[-1200:]
         res["obs"] = None
@@ -147,6 +172,16 @@ def run_one(devs, budgets, blocks=1, direction="h2e", corrupt=None, all_bytes=Fa
         elif mine[0] != want1:
             diff = [n for n, a, b in zip(("system", "stream", "function", "device", "R", "W", "body"), mine[0], want1) if a != b]
             res["v"].append((f"C17|delivered-message-differs|{'+'.join(diff)}|{tag}", {"case": case}))
+    elif box.get("retried"):
+        # first attempt failed (checked without retry elsewhere); the clean second attempt must arrive intact, once
+        if results.get("retry") is not True:
+            res["v"].append((f"C17|retry-after-failed-send-reported-failed|{tag}", {"case": case, "results": results}))
+        elif len(mine) != 1:
+            res["v"].append((f"C17|retry-after-failed-send|delivery-count={len(mine)}|{tag}", {"case": case}))
+        elif mine[0] != want1:
+            diff = [n for n, a, b in zip(("system", "stream", "function", "device", "R", "W", "body"), mine[0], want1) if a != b]
+            res["v"].append((f"C17|retry-after-failed-send|delivered-message-differs|{'+'.join(diff)}|{tag}",
+                             {"case": case, "got_len": len(mine[0][6]), "want_len": len(want1[6])}))
     else:
         if ok1 is True:
             res["v"].append((f"C17|corrupted-block-reported-success|{tag}", {"case": case}))
@@ -157,6 +192,10 @@ def run_one(devs, budgets, blocks=1, direction="h2e", corrupt=None, all_bytes=Fa
             res["v"].append((f"C17|no-NAK-for-corrupted-block|{tag}", {"case": case}))
     if ok1 is True and len(mine) != 1:
         res["v"].append((f"C17|success-but-delivered={len(mine)}|{tag}", {"case": case}))
+    if "expected_twin" in box:
+        mt = [m for m in got[rname] if m[0] == 0x4004]
+        if results.get("twin") is not True or len(mt) != 1 or mt[0][6] != box["expected_twin"][1]:
+            res["v"].append((f"C17|concurrent-message-of-the-same-side-fails|{tag}", {"case": case, "results": results, "n": len(mt)}))
     if "expected2" in box:
         other = "host" if rname == "eq" else "eq"
         m2 = [m for m in got[other] if m[0] == 0x2002]
@@ -256,6 +295,15 @@ def run(ctx):
             parts.append({"cfg": cfg, "executions": st["executions"], "outcomes": st["distinct_outcomes"], "levels_completed": st["levels_completed"]})
             tot += st["executions"]
             states += st["distinct_outcomes"]
+    # two sender threads on one side (blocks of two messages alternate on the line), and a NAKed block against the sender's wake-up: <= K delays
+    for cfg in ({"blocks": 3, "direction": "h2e", "second": False, "twin": True, "chunk_menu": False},
+                {"blocks": 2, "direction": "e2h", "second": False, "twin": True, "chunk_menu": False},
+                {"blocks": 1, "direction": "h2e", "second": False, "corrupt": [0, 15, 0x01], "chunk_menu": False},
+                {"blocks": 2, "direction": "e2h", "second": False, "corrupt": [1, 3, 0x01], "chunk_menu": False}):
+        st = explore.explore(ctx, run_one, {"sched": k, "cut": 0}, f"c17-{'twin' if cfg.get('twin') else 'nak'}-{cfg['blocks']}-{cfg['direction']}", opts=cfg, chunk=8)
+        parts.append({"cfg": cfg, "executions": st["executions"], "outcomes": st["distinct_outcomes"], "levels_completed": st["levels_completed"]})
+        tot += st["executions"]
+        states += st["distinct_outcomes"]
     # known finding probe: corrupted length byte (kept apart from the main oracle)
     for label, mask in (("shorter", 0x01), ("longer", 0x80)):
         r = run_one({}, {}, blocks=1, corrupt=[0, 0, mask], second=False, traced=False)
@@ -272,6 +320,11 @@ def run(ctx):
             for direction in ("h2e", "e2h"):
                 yield {"blocks": blocks, "direction": direction, "all_bytes": True, "chunk_menu": False, "second": True}
                 yield {"blocks": blocks, "direction": direction, "all_bytes": True, "chunk_menu": False, "second": True, "paced": True}
+                # a block of the message is corrupted (send fails), then the application sends the same message again
+                for bi in range(blocks):
+                    yield {"blocks": blocks, "direction": direction, "chunk_menu": False, "second": False, "corrupt": [bi, 15, 0x01], "retry": True}
+                # bodies that are exact multiples of the block size (244, 488, 732)
+                yield {"blocks": blocks, "direction": direction, "chunk_menu": False, "second": True, "tail": 244}
 
     n = ctx.run_cases(check_case, cases(), "c17-corruption", chunk=8)
     ctx.setcov("states", states + n)
